@@ -51,7 +51,7 @@ InvVoid == phase = "done" =>
 InvOnce == phase = "done" =>
   LET out == Render(tree, 2, TRUE, TRUE)
       content == SelectSeq(out, LAMBDA t : t[1] \in {"open", "void", "leaf"})
-      expect == SelectSeq(PreOrder(Strip(tree)), LAMBDA n : ~IsList(n))
+      expect == SelectSeq(PreOrder(Strip(tree)), LAMBDA n : ~IsList(n) /\ n.k # "E")
   IN Len(content) = Len(expect) /\ \A i \in 1..Len(expect) : content[i][2] = expect[i].id
 
 \* C01 at token level: without its layout tokens the output is exactly the pre-order walk of the
@@ -59,7 +59,7 @@ InvOnce == phase = "done" =>
 \* for childless void names, leaves in place
 RECURSIVE Walk(_)
 Walk(x) == IF IsMeta(x) THEN <<>>
-           ELSE IF ~IsTag(x) /\ ~IsList(x) THEN <<Tok("leaf", x.id)>>
+           ELSE IF ~IsTag(x) /\ ~IsList(x) THEN (IF x.k = "E" THEN <<>> ELSE <<Tok("leaf", x.id)>>)
            ELSE LET inner == FlattenSeq([i \in 1..Len(x.c) |-> Walk(x.c[i])]) IN
                 IF IsList(x) THEN inner
                 ELSE IF IsVoid(x) /\ NonMeta(x.c) = <<>> THEN <<Tok("void", x.id)>>
